@@ -374,7 +374,7 @@ def cryptosign(col, seed, n, only=None):
     strat = st.fixed_dictionaries({"seed": st.binary(min_size=32, max_size=32), "challenge": st.binary(min_size=32, max_size=32),
                                    "channel_id": st.one_of(st.none(), st.binary(min_size=32, max_size=32), st.sampled_from([bytes(32), b"\xff" * 32])),
                                    "method": st.sampled_from(["cryptosign", "cryptosign-proxy"]), "via": st.sampled_from(["key", "authenticator"]),
-                                   "flipbit": st.integers(0, 511)})
+                                   "flipbit": st.integers(0, 511), "explicit_pubkey": st.booleans(), "factory": st.booleans()})
 
     def body(c):
         case = dict(c, check="cryptosign")
@@ -397,7 +397,13 @@ def cryptosign(col, seed, n, only=None):
 
             class SS:
                 _transport = TR()
-            a = auth.AuthCryptoSign(authid="joe", privkey=c["seed"].hex(), authextra={"channel_binding": cid_type} if cid_type else {})
+            ax = {"channel_binding": cid_type} if cid_type else {}
+            if c.get("explicit_pubkey"):
+                ax["pubkey"] = ref_pub_raw.hex()        # the application states its (matching) public key itself instead of having it filled in
+            if c.get("factory"):
+                a = auth.create_authenticator("cryptosign", authid="joe", privkey=c["seed"].hex(), authextra=ax)
+            else:
+                a = auth.AuthCryptoSign(authid="joe", privkey=c["seed"].hex(), authextra=ax)
             if a.authextra.get("pubkey") != ref_pub_raw.hex():
                 raise Violation("C19|cryptosign|authextra-pubkey", repr(a.authextra), case)
             sig_hex = _result_of(a.on_challenge(SS(), ch))
